@@ -223,6 +223,41 @@ def perm_args(call, locdim, rank):
     return "(" + " ++ ".join(parts) + ")"
 
 
+def perm_chain(node, recv, locdim, rank):
+    """`<recv>.permute(...)` / `<recv>.transpose(a, b)`, possibly chained -> Lean `List Nat` text of the ONE permutation `p`
+    with `result = <recv>.permute(p)`.  `t.permute(p).permute(q) = t.permute(q.map (p[·]))`, `t.permute(p).transpose(a, b) =
+    t.permute(swapAt p a b)`.  A single `permute` keeps its argument list verbatim."""
+    chain = []
+    cur = node
+    while isinstance(cur, ast.Call) and isinstance(cur.func, ast.Attribute) and cur.func.attr in ("permute", "transpose"):
+        chain.append(cur)
+        cur = cur.func.value
+    if not (isinstance(cur, ast.Name) and cur.id == recv) or not chain:
+        bad(node, f"expected a permute / transpose chain on `{recv}`")
+    chain.reverse()
+
+    def dim(a):
+        if isinstance(a, ast.Constant) and isinstance(a.value, int) and not isinstance(a.value, bool):
+            return str(a.value)
+        if isinstance(a, ast.UnaryOp) and isinstance(a.op, ast.USub) and isinstance(a.operand, ast.Constant) \
+                and isinstance(a.operand.value, int):
+            return f"({rank} - {a.operand.value})"
+        bad(a, "transpose dimension")
+    text = None
+    for c in chain:
+        if c.keywords:
+            bad(c, "keyword arguments of permute / transpose")
+        if c.func.attr == "permute":
+            p_ = perm_args(c, locdim, rank)
+            text = p_ if text is None else f"({p_}.map fun j => {text}.getD j 0)"
+        else:
+            if len(c.args) != 2:
+                bad(c, "transpose takes two dimensions")
+            base = f"(List.range {rank})" if text is None else text
+            text = f"(swapAt {base} {dim(c.args[0])} {dim(c.args[1])})"
+    return text
+
+
 # ----------------------------------------------------------------------------------------------- the translator
 
 class Translator:
@@ -844,6 +879,95 @@ def unsqueezeDim (nb : Nat) (dim : Int) : Option Int :=
 def extendedShape (ss bs ks : List Nat) : List Nat := {ext}
 """)
 
+    # ---------------------------------------------------------------- (f) __init__ (lazy branch): batch broadcast
+    def gen_init(self):
+        fn = self.m("__init__")
+        if [a.arg for a in fn.args.args] != ["self", "mean", "covariance_matrix", "validate_args"]:
+            bad(fn, "__init__ signature")
+        body = strip_doc(fn.body)
+        if not (len(body) == 2 and U(body[0]) == "self._islazy = isinstance(mean, LinearOperator) or isinstance(covariance_matrix, LinearOperator)"
+                and isinstance(body[1], ast.If) and U(body[1].test) == "self._islazy"):
+            bad(fn, "__init__ must be: _islazy flag, lazy / dense split")
+        expect(body[1].orelse[0] if len(body[1].orelse) == 1 else body[1],
+               "super().__init__(loc=mean, covariance_matrix=covariance_matrix, validate_args=validate_args)", "dense branch")
+        satoms = {"mean.shape": "ms", "covariance_matrix.shape": "cs"}
+        cur = {"mean": "ms", "covariance_matrix": "cs"}           # current shape of the two arguments
+        bshape, eshape, stored, dist_batch = None, None, {}, None
+
+        def cond(test):
+            if isinstance(test, ast.Compare) and len(test.ops) == 1 and isinstance(test.ops[0], (ast.Eq, ast.NotEq)):
+                try:
+                    l_ = shape_expr(test.left, satoms, {})
+                    r_ = shape_expr(test.comparators[0], satoms, {})
+                    return f"({l_} {'≠' if isinstance(test.ops[0], ast.NotEq) else '='} {r_})"
+                except TranslateError:
+                    pass
+            atoms = {}
+            for nd in ast.walk(test):
+                if is_call(nd, "len") and len(nd.args) == 1 and not nd.keywords:
+                    atoms[U(nd)] = f"({shape_expr(nd.args[0], satoms, {})}).length"
+            return bexpr(test, atoms, {})
+        for s in body[1].body:
+            src = U(s)
+            if isinstance(s, ast.If) and U(s.test) == "validate_args":
+                continue
+            if src in ("self.__unbroadcasted_scale_tril = None", "self._validate_args = validate_args"):
+                continue
+            if isinstance(s, ast.Assign) and U(s.targets[0]) == "batch_shape":
+                v = s.value
+                if not (is_call(v, "torch.broadcast_shapes") and len(v.args) == 2 and not v.keywords) or bshape is not None:
+                    bad(s, "batch_shape must be torch.broadcast_shapes(<mean batch>, <covariance batch>)")
+                bshape = f"broadcastShapes {shape_expr(v.args[0], satoms, {})} {shape_expr(v.args[1], satoms, {})}"
+                satoms["batch_shape"] = "bs"
+                continue
+            if isinstance(s, ast.Assign) and U(s.targets[0]) == "event_shape":
+                eshape = shape_expr(s.value, satoms, {})
+                satoms["event_shape"] = "(initEventShape ms)"
+                continue
+            if isinstance(s, ast.If) and not s.orelse and len(s.body) == 1 and isinstance(s.body[0], ast.Assign) \
+                    and U(s.body[0].targets[0]) in cur:
+                if bshape is None:
+                    bad(s, "expand before batch_shape is known")
+                nm = U(s.body[0].targets[0])
+                v = s.body[0].value
+                if not (isinstance(v, ast.Call) and U(v.func) == nm + ".expand" and v.args and not v.keywords
+                        and all(isinstance(a, ast.Starred) for a in v.args)):
+                    bad(s, "expand of a constructor argument")
+                if cur[nm] != satoms[nm + ".shape"]:
+                    bad(s, "second expand of the same argument")
+                tgt = " ++ ".join(shape_expr(a.value, satoms, {}) for a in v.args)
+                cur[nm] = f"(if {cond(s.test)} then ({tgt}) else {cur[nm]})"
+                continue
+            if isinstance(s, ast.Assign) and U(s.targets[0]) in ("self.loc", "self._covar") and isinstance(s.value, ast.Name) \
+                    and s.value.id in cur:
+                stored[U(s.targets[0])] = cur[s.value.id]
+                continue
+            if isinstance(s, ast.Expr) and is_call(s.value, "super(TMultivariateNormal, self).__init__"):
+                a_ = s.value.args
+                if not (len(a_) == 2 and U(a_[1]) == "event_shape" and {k.arg: U(k.value) for k in s.value.keywords} == {"validate_args": "False"}):
+                    bad(s, "Distribution.__init__ call")
+                dist_batch = shape_expr(a_[0], satoms, {})
+                continue
+            bad(s, "statement in the lazy branch of __init__")
+        if bshape is None or eshape is None or set(stored) != {"self.loc", "self._covar"} or dist_batch is None:
+            bad(fn, "__init__: missing batch_shape / event_shape / self.loc / self._covar / Distribution.__init__")
+        self.emit(f"""/-! ### (f) `__init__` (LinearOperator branch): batch broadcast of mean and covariance -/
+
+/-- `batch_shape`; `ms = mean.shape`, `cs = covariance_matrix.shape` (`none`: the batch shapes do not broadcast) -/
+def initBatchShape (ms cs : List Nat) : Option (List Nat) := {bshape}
+/-- `event_shape` -/
+def initEventShape (ms : List Nat) : List Nat := {eshape}
+/-- shape of `self.loc` after the conditional `expand`; `bs = batch_shape` -/
+def initLocShape (ms cs bs : List Nat) : List Nat := {stored['self.loc']}
+/-- shape of `self._covar` after the conditional `expand` -/
+def initCovShape (ms cs bs : List Nat) : List Nat := {stored['self._covar']}
+/-- batch shape handed to `Distribution.__init__` -/
+def initDistBatch (ms cs bs : List Nat) : List Nat := {dist_batch}
+/-- `(self.loc.shape, self._covar.shape)` -/
+def initShapes (ms cs : List Nat) : Option (List Nat × List Nat) :=
+  (initBatchShape ms cs).map fun bs => (initLocShape ms cs bs, initCovShape ms cs bs)
+""")
+
     # ---------------------------------------------------------------- (e) rsample
     def gen_rsample(self):
         fn = self.m("rsample")
@@ -870,9 +994,9 @@ def extendedShape (ss bs ks : List Nat) : List Nat := {ext}
         vt = shape_expr(s.value.args[1].value, {"self.loc.shape": "loc"}, {})
         expect(s.value.args[2], "covar_root.shape[-1]", "last view dimension")
         s = next(it)
-        if not (isinstance(s, ast.Assign) and isinstance(s.value, ast.Call) and U(s.value.func) == "base_samples.permute"):
+        if not (isinstance(s, ast.Assign) and U(s.targets[0]) == "base_samples" and isinstance(s.value, ast.Call)):
             bad(s, "first permute")
-        pin = perm_args(s.value, "locDim", "(locDim + 1)")
+        pin = perm_chain(s.value, "base_samples", "locDim", "(locDim + 1)")
         s = next(it)
         expect(s, "if covar_root.shape[-1] < base_samples.shape[-2]:\n    base_samples = base_samples[..., :covar_root.shape[-1], :]\n"
                   "elif covar_root.shape[-1] > base_samples.shape[-2]:\n    covar_root = covar_root.transpose(-2, -1)", "rank adjustment")
@@ -881,10 +1005,10 @@ def extendedShape (ss bs ks : List Nat) : List Nat := {ext}
             bad(s, "core of rsample")
         core, _ = texpr(s.value, {"covar_root": ("root", "mat"), "base_samples": ("eps", "vec"), "self.loc": ("loc", "vec")}, {})
         s = next(it)
-        if not (isinstance(s, ast.Assign) and isinstance(s.value, ast.Call) and U(s.value.func).endswith(".contiguous")
-                and isinstance(s.value.func.value, ast.Call) and U(s.value.func.value.func) == "res.permute"):
+        if not (isinstance(s, ast.Assign) and U(s.targets[0]) == "res" and isinstance(s.value, ast.Call)
+                and U(s.value.func).endswith(".contiguous") and not s.value.args and isinstance(s.value.func.value, ast.Call)):
             bad(s, "second permute")
-        pout = perm_args(s.value.func.value, "locDim", "(locDim + 1)")
+        pout = perm_chain(s.value.func.value, "res", "locDim", "(locDim + 1)")
         s = next(it)
         if not (isinstance(s, ast.Assign) and isinstance(s.value, ast.Call) and U(s.value.func) == "res.view"
                 and len(s.value.args) == 1):
@@ -919,6 +1043,7 @@ Regenerated from $VERIF_REPO on every `./check C10`; the theorems `C10.gen_*` of
 definitions equal the specifications of Model/MVN.lean.
 -/
 import GPVerif.Model.MVN
+import GPVerif.Model.MVNShape
 
 namespace GenMVN
 open MVN
@@ -932,6 +1057,7 @@ variable {{n m : Nat}} {{α : Type}}
         self.gen_variance()
         self.gen_shapes()
         self.gen_rsample()
+        self.gen_init()
         self.emit("end GenMVN\n")
         return "\n".join(self.out)
 
